@@ -44,6 +44,7 @@ type c18case struct {
 	Object  string     `json:"object,omitempty"` // printed object (information only; regenerated from type/profile/seed)
 	Row     string     `json:"row,omitempty"`
 	Steps   []memoStep `json:"steps,omitempty"` // kind "memo": API sequence on one live object
+	Cert    *certCase  `json:"cert,omitempty"`  // kind "cert": votes of one certificate
 }
 
 func typeShort(name string) string { return name[strings.Index(name, ":")+1:] }
@@ -613,7 +614,7 @@ func (rn *runner) convLines(n int) {
 }
 
 var pinnedSchemas = map[string]bool{"ProtoTransaction.Data": true, "ProtoTransaction": true, "ProtoVote.Data": true,
-	"ProtoBlockHeader.Proposed": true, "ProtoBlockHeader.Empty": true}
+	"ProtoBlockHeader.Proposed": true, "ProtoBlockHeader.Empty": true, "ProtoBlockCert": true}
 
 func (rn *runner) preamble() (*extractResult, error) {
 	c := rn.c
@@ -756,6 +757,11 @@ func init() {
 					return fmt.Errorf("unknown type %q", cs.Type)
 				}
 				rn.checkObject(ti, profByName(cs.Profile), cs.Seed, 1<<30, cs.Leaf)
+			case "cert":
+				if cs.Cert == nil {
+					return fmt.Errorf("cert replay without votes")
+				}
+				rn.certCase(*cs.Cert)
 			case "noncanonical":
 				ti := findType(cs.Type)
 				if ti == nil {
@@ -786,6 +792,7 @@ func init() {
 		rn.goldenVectors()
 		rn.memoFamily(c.Scale(60, 1500))
 		rn.nonCanonicalFamily(c.Scale(10, 150))
+		rn.certFamily(c.Scale(150, 4000))
 		perType := c.Scale(25, 250) // random-profile objects per type (besides the 4 fixed profiles)
 		maxMut := c.Scale(40, 120)
 		for i := range registry {
